@@ -399,6 +399,12 @@ def primitives(ctx: Context, rule: str, classes: T.Iterable[str] | None = None) 
                     raises = len(ifs) == 1 and any(isinstance(x, ast.Raise) and "PoolTimeout" in ast.unparse(x) for x in ifs[0].body)
                 ok = tmo and raises
                 detail = f"Event.wait: timeout passed={tmo}, unsuccessful wait raises PoolTimeout={raises}"
+                if not tmo:
+                    rep.ob(rule, fkey("sync", f, f"{cn}.{m}:timeout-domain"), False, where(f, call),
+                           "the value handed to threading.Event.wait() is not the caller's timeout over {None, 0, 0.5, 5, inf} with inf -> None: the async Event takes `inf` as "
+                           "`no limit` (anyio / trio fail_after), threading.Event.wait(inf) raises OverflowError - a queued sync request with an infinite pool timeout fails where the "
+                           "async one waits")
+                    continue
             rep.ob(rule, fkey("sync", f, f"{cn}.{m}->{dm}"), ok, where(f, calls[0] if calls else None),
                    detail if ok else f"{cn}.{m} does not unconditionally delegate to self.{attr}.{dm}() (calls: {len(calls)}, guards: {sorted(guard_atoms(guards_of(calls[0]))) if calls else '-'}, "
                    f"early exits: {[type(x).__name__ for x in early]}): a wake-up or a release can be skipped")
